@@ -369,7 +369,7 @@ theorem RunEnc.flush_inv (s : RunEnc) (xs : List Nat) (h : s.Inv xs) :
   by_cases hany : s.opn.length > 0 ∨ s.rep > 0 ∨ s.buffered.length > 0
   · simp only [hany, if_true]
     by_cases hrle : s.rep > 0 ∧ s.opn.length = 0 ∧ (s.rep = s.buffered.length ∨ s.buffered.length = 0)
-    · simp only [hrle, if_true, RunEnc.flushRleRun]
+    · simp only [hrle, RunEnc.flushRleRun]
       obtain ⟨hr0, ho, hrb⟩ := hrle
       have ho' : s.opn = [] := List.length_eq_zero_iff.mp ho
       have hpend : s.pending = List.replicate s.rep s.cur := by
@@ -541,5 +541,250 @@ theorem bitsOfBytes_packBytes (w : Nat) (vs : List Nat) (h : vs.length % 8 = 0) 
   have : vs.length = 8 * (vs.length / 8) := by omega
   calc vs.length * w = 8 * (vs.length / 8) * w := by rw [← this]
     _ = 8 * (vs.length / 8 * w) := by rw [Nat.mul_assoc]
+
+
+/-! ### the decoder on valid run sequences -/
+
+
+theorem getAligned_leBytes (k v : Nat) (rest : List Nat) :
+    getAligned k (bitsOfBytes (leBytes k v ++ rest)) = some (v % 2 ^ (8 * k), bitsOfBytes rest) := by
+  unfold getAligned
+  rw [alignBits_bytes, bitsOfBytes_append]
+  have hl : (bitsOfBytes (leBytes k v)).length = 8 * k := by rw [bitsOfBytes_length, leBytes_length]
+  have : ¬ ((bitsOfBytes (leBytes k v) ++ bitsOfBytes rest).length < 8 * k) := by
+    rw [List.length_append, hl]; omega
+  simp only [this, if_false]
+  rw [List.take_left' hl, List.drop_left' hl, ofBits_leBytes]
+
+theorem sar1_small (u : Nat) (h : u < 2 ^ 63) : sar1 u = u / 2 := by simp [sar1, h]
+
+theorem and_one (n : Nat) : n &&& 1 = n % 2 := by
+  have := Nat.and_two_pow_sub_one_eq_mod n 1
+  simpa using this
+
+/-- `reload` on an RLE run of the format -/
+theorem reload_rle (w c v : Nat) (rest : List Nat) (hc0 : 0 < c) (hc : c < 2 ^ 31) (hv : v < 2 ^ w) :
+    reload w (bitsOfBytes (encodeRun w (.rle c v) ++ rest)) = .rle c v (bitsOfBytes rest) := by
+  unfold reload encodeRun
+  rw [List.append_assoc, getVlq_uleb (2 * c) _ (by omega)]
+  have h1 : ¬ (2 * c = 0) := by omega
+  have h2 : ¬ ((2 * c) &&& DEC_INDICATOR_FLAG_MASK = 1) := by
+    simp only [DEC_INDICATOR_FLAG_MASK]; rw [and_one]; omega
+  simp only [h1, h2, if_false]
+  have hk : ceilDiv w 8 = (w + 7) / 8 := by unfold ceilDiv; rfl
+  rw [hk, getAligned_leBytes]
+  have hv' : v % 2 ^ (8 * ((w + 7) / 8)) = v := by
+    apply Nat.mod_eq_of_lt
+    calc v < 2 ^ w := hv
+      _ ≤ 2 ^ (8 * ((w + 7) / 8)) := Nat.pow_le_pow_right (by decide) (by omega)
+  have hs : u32 (sar1 (2 * c)) = c := by
+    rw [sar1_small _ (by omega)]; unfold u32; omega
+  simp only [hv', hs]
+
+/-- `reload` on a bit-packed run of the format -/
+theorem reload_packed (w : Nat) (vs : List Nat) (rest : List Nat) (hl : vs.length % 8 = 0) (hlt : vs.length < 2 ^ 31) :
+    reload w (bitsOfBytes (encodeRun w (.packed vs) ++ rest)) =
+      .packed vs.length (vs.flatMap (bitsLE w) ++ bitsOfBytes rest) := by
+  unfold reload encodeRun
+  rw [List.append_assoc, getVlq_uleb (2 * (vs.length / 8) + 1) _ (by omega)]
+  have h1 : ¬ (2 * (vs.length / 8) + 1 = 0) := by omega
+  have h2 : (2 * (vs.length / 8) + 1) &&& DEC_INDICATOR_FLAG_MASK = 1 := by
+    simp only [DEC_INDICATOR_FLAG_MASK]; rw [and_one]; omega
+  simp only [h1, h2, if_false, if_true]
+  have hs : u32 (u64 (sar1 (2 * (vs.length / 8) + 1) * BIT_PACK_GROUP_SIZE)) = vs.length := by
+    rw [sar1_small _ (by omega)]; unfold u32 u64; simp only [BIT_PACK_GROUP_SIZE]; omega
+  rw [hs, bitsOfBytes_append, bitsOfBytes_packBytes w vs hl]
+
+theorem getBatchLoop_zero (w fuel : Nat) (bits : List Bool) (rl bl cur : Nat) :
+    getBatchLoop w fuel bits rl bl cur 0 = .ok [] := by
+  cases fuel <;> simp [getBatchLoop]
+
+theorem encodeRuns_cons (w : Nat) (r : Run) (rs : List Run) :
+    encodeRuns w (r :: rs) = encodeRun w r ++ encodeRuns w rs := by simp [encodeRuns]
+
+theorem runsValues_cons (r : Run) (rs : List Run) : runsValues (r :: rs) = r.values ++ runsValues rs := by
+  simp [runsValues]
+
+theorem take_min_left (n : Nat) (l : List Nat) : l.take (min n l.length) = l.take n := by
+  by_cases h : n ≤ l.length
+  · rw [Nat.min_eq_left h]
+  · have h' : l.length ≤ n := by omega
+    rw [Nat.min_eq_right h', List.take_of_length_le h', List.take_of_length_le (Nat.le_refl _)]
+
+/-- **format-level round trip**: the `get_batch` loop started in front of any valid run
+sequence returns its first `n` values -/
+theorem getBatchLoop_runs (w : Nat) : ∀ (runs : List Run), (∀ r ∈ runs, r.Valid w) →
+    ∀ (n fuel cur : Nat), n ≤ (runsValues runs).length → 2 * runs.length + 1 ≤ fuel →
+    getBatchLoop w fuel (bitsOfBytes (encodeRuns w runs)) 0 0 cur n = .ok ((runsValues runs).take n) := by
+  intro runs
+  induction runs with
+  | nil =>
+    intro _ n fuel cur hn hf
+    have : n = 0 := by simpa [runsValues] using hn
+    subst this
+    rw [getBatchLoop_zero]; simp
+  | cons r rs ih =>
+    intro hvalid n fuel cur hn hf
+    have hvr := hvalid r (by simp)
+    have hvrs : ∀ r' ∈ rs, r'.Valid w := fun r' h => hvalid r' (by simp [h])
+    by_cases hn0 : n = 0
+    · subst hn0; rw [getBatchLoop_zero]; simp
+    obtain ⟨f, rfl⟩ : ∃ f, fuel = f + 1 := ⟨fuel - 1, by omega⟩
+    obtain ⟨f', rfl⟩ : ∃ f', f = f' + 1 := ⟨f - 1, by simp at hf; omega⟩
+    have hf' : 2 * rs.length + 1 ≤ f' := by simp at hf; omega
+    rw [runsValues_cons] at hn ⊢
+    rw [getBatchLoop, encodeRuns_cons]
+    simp only [hn0, if_false, Nat.lt_irrefl]
+    cases r with
+    | rle c v =>
+      obtain ⟨hc0, hc, hv⟩ := hvr
+      rw [reload_rle w c v _ hc0 hc hv]
+      simp only []
+      rw [getBatchLoop]
+      simp only [hn0, if_false, hc0, if_true, Run.values]
+      by_cases hle : n ≤ c
+      · rw [Nat.min_eq_left hle, Nat.sub_self, getBatchLoop_zero]
+        simp only [DecRes.prepend, List.append_nil]
+        rw [List.take_append_of_le_length (by simpa using hle), List.take_replicate, Nat.min_eq_left hle]
+      · have hgt : c < n := by omega
+        have hk : min n c = c := Nat.min_eq_right (by omega)
+        have hn' : n - c ≤ (runsValues rs).length := by
+          simp only [Run.values, List.length_append, List.length_replicate] at hn; omega
+        rw [hk, Nat.sub_self, ih hvrs (n - c) f' v hn' hf']
+        simp only [DecRes.prepend]
+        have h1 : (List.replicate c v).take n = List.replicate c v :=
+          List.take_of_length_le (by rw [List.length_replicate]; omega)
+        rw [List.take_append, h1]
+        simp
+    | packed vs =>
+      obtain ⟨hl0, hl8, hlt, hv⟩ := hvr
+      rw [reload_packed w vs _ hl8 hlt]
+      simp only []
+      rw [getBatchLoop]
+      simp only [hn0, if_false, Nat.lt_irrefl, hl0, if_true, Run.values]
+      have hbits : ¬ ((vs.flatMap (bitsLE w) ++ bitsOfBytes (encodeRuns w rs)).length < w * min n vs.length) := by
+        rw [List.length_append, flatMap_bitsLE_length]
+        have : w * min n vs.length ≤ vs.length * w := by
+          rw [Nat.mul_comm]; exact Nat.mul_le_mul_right _ (Nat.min_le_right _ _)
+        omega
+      have hm0 : ¬ (min n vs.length = 0) := by
+        have : 0 < min n vs.length := Nat.lt_min.mpr ⟨by omega, hl0⟩
+        omega
+      simp only [hbits, if_false, hm0]
+      rw [unpack_pack w vs _ _ (Nat.min_le_right _ _) hv, take_min_left]
+      by_cases hle : n ≤ vs.length
+      · rw [Nat.min_eq_left hle, Nat.sub_self, getBatchLoop_zero]
+        simp only [DecRes.prepend, List.append_nil]
+        rw [List.take_append_of_le_length hle]
+      · have hgt : vs.length < n := by omega
+        have hk : min n vs.length = vs.length := Nat.min_eq_right (by omega)
+        have hn' : n - vs.length ≤ (runsValues rs).length := by
+          simp only [Run.values, List.length_append] at hn; omega
+        rw [hk, Nat.sub_self, List.drop_left' (flatMap_bitsLE_length w vs),
+          ih hvrs (n - vs.length) f' cur hn' hf']
+        simp only [DecRes.prepend]
+        have h1 : vs.take n = vs := List.take_of_length_le (by omega)
+        rw [List.take_append, h1]
+
+theorem uleb_length_pos (n : Nat) : 0 < (uleb n).length := by
+  by_cases h : n < 128
+  · rw [uleb_lt n h]; simp
+  · rw [uleb_ge n h]; simp
+
+theorem encodeRun_length_pos (w : Nat) (r : Run) : 0 < (encodeRun w r).length := by
+  cases r with
+  | rle c v => have := uleb_length_pos (2 * c); simp only [encodeRun, List.length_append]; omega
+  | packed vs => have := uleb_length_pos (2 * (vs.length / 8) + 1); simp only [encodeRun, List.length_append]; omega
+
+theorem encodeRuns_length (w : Nat) (runs : List Run) : runs.length ≤ (encodeRuns w runs).length := by
+  induction runs with
+  | nil => simp
+  | cons r rs ih =>
+    rw [encodeRuns_cons, List.length_append, List.length_cons]
+    have := encodeRun_length_pos w r
+    omega
+
+/-- `RleDecoder::set_data` + `get_batch(n)` on any valid run sequence -/
+theorem rleDecode_runs (w : Nat) (runs : List Run) (hvalid : ∀ r ∈ runs, r.Valid w) (n : Nat)
+    (hn : n ≤ (runsValues runs).length) :
+    rleDecode w (encodeRuns w runs) n = .ok ((runsValues runs).take n) := by
+  simp only [rleDecode]
+  cases runs with
+  | nil =>
+    have : n = 0 := by simpa [runsValues] using hn
+    subst this
+    have hv : getVlq (bitsOfBytes (encodeRuns w [])) = .eof := by
+      simp only [encodeRuns, List.flatMap_nil, bitsOfBytes, getVlq, alignBits, List.length_nil, List.drop_nil]
+      rw [getVlqLoop.eq_def]; simp
+    simp only [reload, hv, getBatchLoop_zero, runsValues, List.flatMap_nil, List.take_nil]
+  | cons r rs =>
+    by_cases hn0 : n = 0
+    · subst hn0
+      cases r with
+      | rle c v =>
+        obtain ⟨hc0, hc, hv⟩ := hvalid (Run.rle c v) (by simp)
+        rw [encodeRuns_cons, reload_rle w c v _ hc0 hc hv]
+        simp [getBatchLoop_zero]
+      | packed vs =>
+        obtain ⟨hl0, hl8, hlt, hv⟩ := hvalid (Run.packed vs) (by simp)
+        rw [encodeRuns_cons, reload_packed w vs _ hl8 hlt]
+        simp [getBatchLoop_zero]
+    · have hlen := encodeRuns_length w (r :: rs)
+      have key := getBatchLoop_runs w (r :: rs) hvalid n
+        (n + (bitsOfBytes (encodeRuns w (r :: rs))).length + 2 + 1) 0 hn
+        (by rw [bitsOfBytes_length]; omega)
+      rw [getBatchLoop] at key
+      simp only [hn0, if_false, Nat.lt_irrefl] at key
+      cases r with
+      | rle c v =>
+        obtain ⟨hc0, hc, hv⟩ := hvalid (Run.rle c v) (by simp)
+        rw [encodeRuns_cons, reload_rle w c v _ hc0 hc hv] at key ⊢
+        exact key
+      | packed vs =>
+        obtain ⟨hl0, hl8, hlt, hv⟩ := hvalid (Run.packed vs) (by simp)
+        rw [encodeRuns_cons, reload_packed w vs _ hl8 hlt] at key ⊢
+        exact key
+
+theorem mem_runsValues (runs : List Run) (r : Run) (x : Nat) (hr : r ∈ runs) (hx : x ∈ r.values) :
+    x ∈ runsValues runs := by
+  unfold runsValues; exact List.mem_flatMap.mpr ⟨r, hr, hx⟩
+
+theorem values_length_le (runs : List Run) (r : Run) (hr : r ∈ runs) :
+    r.values.length ≤ (runsValues runs).length := by
+  induction runs with
+  | nil => simp at hr
+  | cons a as ih =>
+    rw [runsValues_cons, List.length_append]
+    rcases List.mem_cons.mp hr with h | h
+    · subst h; omega
+    · have := ih h; omega
+
+/-- well-formed runs denoting values `< 2^w`, fewer than `2^31` in total, are valid -/
+theorem valid_of_ok (w : Nat) (runs : List Run) (hok : ∀ r ∈ runs, r.Ok)
+    (hv : ∀ x ∈ runsValues runs, x < 2 ^ w) (hl : (runsValues runs).length < 2 ^ 31) :
+    ∀ r ∈ runs, r.Valid w := by
+  intro r hr
+  have hlen := values_length_le runs r hr
+  cases r with
+  | rle c v =>
+    have h0 : 0 < c := hok _ hr
+    simp only [Run.values, List.length_replicate] at hlen
+    refine ⟨h0, by omega, ?_⟩
+    exact hv v (mem_runsValues runs _ v hr (by simp [Run.values]; omega))
+  | packed vs =>
+    obtain ⟨h0, h8⟩ := hok _ hr
+    simp only [Run.values] at hlen
+    exact ⟨h0, h8, by omega, fun x hx => hv x (mem_runsValues runs _ x hr hx)⟩
+
+theorem rle_roundtrip_runs (w : Nat) (xs : List Nat) (hv : ∀ x ∈ xs, x < 2 ^ w) (hl : xs.length + 8 < 2 ^ 31) :
+    rleDecode w (encodeRuns w (rleRuns xs)) xs.length = .ok xs := by
+  obtain ⟨⟨k, hk, hvals⟩, hok⟩ := rleRuns_values xs
+  have hvalid := valid_of_ok w (rleRuns xs) hok
+    (by rw [hvals]; intro x hx
+        rcases List.mem_append.mp hx with h | h
+        · exact hv x h
+        · rw [(List.mem_replicate.mp h).2]; exact Nat.two_pow_pos w)
+    (by rw [hvals]; simp; omega)
+  rw [rleDecode_runs w _ hvalid xs.length (by rw [hvals]; simp), hvals, List.take_left' rfl]
 
 end ArrowModel.C05
